@@ -24,6 +24,29 @@ static int vc_add(uint64_t k)
 	return 1;
 }
 
+/* a legal custom table under which the bytes of the test inputs get the longest codes (Huffman coding expands them) */
+static struct isal_hufftables *hostile_ht(void)
+{
+	static struct isal_hufftables ht;
+	static int done;
+	if (!done) {
+		static struct isal_huff_histogram h;
+		for (int i = 0; i < 286; i++) h.lit_len_histogram[i] = 1ull << 30;
+		for (int i = 0; i < 30; i++) h.dist_histogram[i] = 1ull << 30;
+		static const char rare[] = "\0ab etaoinshrdlucmfwyp,.XAB\xff\x01";
+		uint64_t a = 1, b = 1;
+		for (unsigned i = 0; i < sizeof rare - 1; i++) {
+			h.lit_len_histogram[(uint8_t)rare[i]] = a;
+			uint64_t t = a + b; a = b; b = t;
+		}
+		for (int i = 257; i < 286; i++) h.lit_len_histogram[i] = 3; /* lengths expensive too */
+		if (isal_create_hufftables(&ht, &h))
+			v_broken("hostile table creation failed");
+		done = 1;
+	}
+	return &ht;
+}
+
 /* (i) one-shot: every avail_out value */
 static void oneshot(uint64_t in_id, int len, int full_sweep)
 {
@@ -33,7 +56,12 @@ static void oneshot(uint64_t in_id, int len, int full_sweep)
 		cpu_set_level(cpus[ci]);
 		for (int level = 0; level <= 3; level++)
 			for (int gz = 0; gz < 5; gz++)
-				for (int flush = 0; flush <= 2; flush += 2) {
+				for (int fh = 0; fh < 6; fh++) {
+					/* huff: 0 default tables, 1 static (RFC fixed) tables, 2 a hostile custom table (the bytes the inputs are made of
+					 * have 13..15-bit codes, so Huffman coding EXPANDS the data); tables only matter at level 0 */
+					int flush = (fh & 1) * 2, huff = fh >> 1;
+					if (huff && level)
+						continue;
 					if (!full_sweep && (gz == 2 || gz == 4))
 						continue;
 					size_t bound = stateless_bound(len, gz);
@@ -49,12 +77,16 @@ static void oneshot(uint64_t in_id, int len, int full_sweep)
 						g_readonly(in, 1);
 						uint8_t *out = g_alloc(ao, G_END); /* exactly avail_out bytes, then an inaccessible page */
 						int r = -1000;
-						snprintf(key, sizeof key, "stateless level=%d wrapper=%s flush=%s cpu=%s input=%s avail_out=bound%+ld", level, gz_name[gz], flush_name[flush],
-							 cpu_level_name[cpus[ci]], in_name, (long)ao - (long)bound);
+						snprintf(key, sizeof key, "stateless level=%d wrapper=%s flush=%s tables=%s cpu=%s input=%s avail_out=bound%+ld", level, gz_name[gz], flush_name[flush],
+							 huff == 0 ? "default" : huff == 1 ? "static" : "hostile-custom", cpu_level_name[cpus[ci]], in_name, (long)ao - (long)bound);
 						if (V_TRY()) {
 							isal_deflate_stateless_init(s);
 							s->level = level; s->level_buf = lb; s->level_buf_size = level ? lvl_min[level] : 0;
 							s->gzip_flag = gz; s->flush = flush; s->end_of_stream = 1;
+							if (huff == 1)
+								isal_deflate_set_hufftables(s, NULL, IGZIP_HUFFTABLE_STATIC);
+							else if (huff == 2)
+								isal_deflate_set_hufftables(s, hostile_ht(), IGZIP_HUFFTABLE_CUSTOM);
 							s->next_in = in; s->avail_in = len; s->next_out = out; s->avail_out = ao;
 							r = isal_deflate_stateless(s);
 							V_END();
@@ -250,6 +282,17 @@ int main(int argc, char **argv)
 					}
 					static const int gzs[] = { IGZIP_DEFLATE, IGZIP_GZIP, IGZIP_ZLIB };
 					deflate_graph(nm, p, len, level, gzs[gz], cpus[(ii + level + gz) % 3], 0, v_thorough ? 2000000 : 300000);
+					if (level == 0 && (gz == 0 || v_thorough)) {
+						/* level 0 with the RFC fixed tables and with a table that expands the input */
+						char nm2[64];
+						snprintf(nm2, sizeof nm2, "%s+static-tables", nm);
+						SE_HUFF_TYPE = IGZIP_HUFFTABLE_STATIC; SE_HUFFTABLES = NULL;
+						deflate_graph(nm2, p, len, 0, gzs[gz], cpus[(ii + gz) % 3], 0, v_thorough ? 2000000 : 300000);
+						snprintf(nm2, sizeof nm2, "%s+hostile-custom-table", nm);
+						SE_HUFF_TYPE = IGZIP_HUFFTABLE_CUSTOM; SE_HUFFTABLES = hostile_ht();
+						deflate_graph(nm2, p, len, 0, gzs[gz], cpus[(ii + gz + 1) % 3], 0, v_thorough ? 2000000 : 300000);
+						SE_HUFF_TYPE = 0; SE_HUFFTABLES = NULL;
+					}
 				}
 	}
 	if ((!v_part || !strcmp(v_part, "params")) && v_shard == 0)
